@@ -55,11 +55,13 @@ def oracle(rep, p, prof, oc, rng):
         q = dict(p); q["holds"] = list(p["holds"]); rng.shuffle(q["holds"]); q["container"] = rng.choice(["list", "tuple"])
         prof2 = np.asarray(gen_opcond.build(q, oc).tempProfile(dt), dtype=float)
         if len(prof2) != len(prof) or (np.abs(prof2 - prof) > eps).any():
-            # the known finding is precisely: equal hold temperatures, same length, and every sample equals a neighbouring sample of the
-            # other profile (a plateau one sample longer or shorter)
-            shift_only = len(prof2) == len(prof) and all(
-                min(abs(prof2[i] - prof[j]) for j in (max(i - 1, 0), i, min(i + 1, len(prof) - 1))) <= eps for i in range(len(prof) - 1)) \
-                and abs(prof2[-1] - prof[-1]) <= p["rate"] * dt + eps
+            # the known finding is precisely: equal hold temperatures, same length, and every sample equals a sample of the other profile at most
+            # m positions away, m = number of holds that repeat an earlier temperature (each such pair can make one plateau one sample longer)
+            m_ = len(temps) - len(set(temps))
+            L_ = len(prof)
+            shift_only = len(prof2) == L_ and m_ > 0 and all(
+                min(abs(prof2[i] - prof[j]) for j in range(max(i - m_, 0), min(i + m_, L_ - 1) + 1)) <= eps for i in range(L_ - m_)) \
+                and all(abs(prof2[i] - prof[i]) <= m_ * p["rate"] * dt + eps for i in range(max(L_ - m_, 0), L_))
             rep.violation("order-dependence equal-temps" if (not distinct and shift_only) else "order-dependence",
                           "profile depends on the listed order of the holds: %s vs %s" % (p["holds"], q["holds"]),
                           dict(program=p, reordered=q["holds"]))
